@@ -131,6 +131,13 @@ def run_model_and_steps(chk, prop, tier, pkey=None):
             chk.add_tlc(res, "YkConc3 config %s: border deletion, prev/next unlink, interior root collapse vs 2 other threads (LinOK, CollapseOK, LockOK, Quiescent, Termination under WF)" % cfg)
             if not res.ok:
                 chk.error("YkConc3 model check %s did not pass (says nothing about the code): %s" % (cfg, tlc_tail(res, 12)))
+        # border split under an existing interior parent (interior insert), interior delete with shift, and their races with the
+        # collapse of the root / creation of a new root (root-lock hand-over of lock_parent) vs readers (YkConc4): all interleavings
+        for cfg in (["a", "b", "d"] if tier == "quick" else ["a", "b", "c", "d", "e", "f"]):
+            res = tlc("MC_Conc4", "MC_Conc4_%s.cfg" % cfg, workers=8, timeout=900)
+            chk.add_tlc(res, "YkConc4 config %s: split under a parent / interior insert / interior shift-delete / collapse + new root vs readers (LinOK, RootOpsOK, Quiescent, Termination under WF)" % cfg)
+            if not res.ok:
+                chk.error("YkConc4 model check %s did not pass (says nothing about the code): %s" % (cfg, tlc_tail(res, 12)))
         run_steps2(chk, prop, tier, pk)
         run_steps3(chk, prop, tier, pk)
     exe = build("stepdrv", ["stepdrv.cpp"], sessions=16)
